@@ -1,11 +1,11 @@
 #!/bin/sh
-# usage: tools/confirm_seed.sh <ID> <change-number> [round]
+# usage: tools/confirm_seed.sh <ID> <change-number> [round] [benign]
 # Confirms an independently seeded change in its scratch worktree /tmp/wt_<ID>:
 #   clean tree: demo exits 0; with patch: `cargo test --workspace --offline` passes and demo exits != 0.
 # Prints one summary line; exit 0 iff all three hold.
 set -u
 ID="$1"; N="$2"; ROUND="${3:-1}"
-if [ "$ROUND" = 5 ]; then WT="/tmp/w5_$ID"; DIR="/tmp/s5_$ID/change$N"; elif [ "$ROUND" = 4 ]; then WT="/tmp/w4_$ID"; DIR="/tmp/s4_$ID/change$N"; elif [ "$ROUND" = 3 ]; then WT="/tmp/w3_$ID"; DIR="/tmp/s3_$ID/change$N"; elif [ "$ROUND" = 2 ]; then WT="/tmp/w2_$ID"; DIR="/tmp/s2_$ID/change$N"; else WT="/tmp/wt_$ID"; DIR="/tmp/seed_$ID/change$N"; fi
+if [ "$ROUND" = 6 ]; then WT="/tmp/w6_$ID"; DIR="/tmp/s6_$ID/change$N"; elif [ "$ROUND" = 5 ]; then WT="/tmp/w5_$ID"; DIR="/tmp/s5_$ID/change$N"; elif [ "$ROUND" = 4 ]; then WT="/tmp/w4_$ID"; DIR="/tmp/s4_$ID/change$N"; elif [ "$ROUND" = 3 ]; then WT="/tmp/w3_$ID"; DIR="/tmp/s3_$ID/change$N"; elif [ "$ROUND" = 2 ]; then WT="/tmp/w2_$ID"; DIR="/tmp/s2_$ID/change$N"; else WT="/tmp/wt_$ID"; DIR="/tmp/seed_$ID/change$N"; fi
 export CARGO_NET_OFFLINE=true
 cd "$WT" || exit 2
 git checkout -q -- . && git clean -fdq -e target
@@ -18,6 +18,11 @@ cargo test --workspace --offline >"$DIR/.test.log" 2>&1; TEST=$?
 timeout 900 "$DIR/demo.sh" "$WT" >"$DIR/.patched.log" 2>&1; PATCHED=$?
 git checkout -q -- . && git clean -fdq -e target
 RESULT=ok
-[ "$CLEAN" = 0 ] && [ "$TEST" = 0 ] && [ "$PATCHED" != 0 ] || RESULT=REJECT
+if [ "${4:-}" = benign ]; then
+    # A change that keeps the property: the demonstration passes on both trees
+    [ "$CLEAN" = 0 ] && [ "$TEST" = 0 ] && [ "$PATCHED" = 0 ] || RESULT=REJECT
+else
+    [ "$CLEAN" = 0 ] && [ "$TEST" = 0 ] && [ "$PATCHED" != 0 ] || RESULT=REJECT
+fi
 echo "$ID/change$N demo_clean=$CLEAN tests_with_patch=$TEST demo_patched=$PATCHED => $RESULT"
 [ "$RESULT" = ok ]
